@@ -60,10 +60,12 @@ CLAIMED = {
  "C07": dict(technique="symbolic abstract interpretation of the raster/profile neighbour tables (offsets, counts, linearisation) for every connectivity x looping configuration x node code x axis-length class; who-may-write purity; interpretation of the by-reference accessors for output-size agreement",
              text="Decides that offset lists, neighbour counts and index linearisation equal the geometric specification for symbolic shapes (>= 3 per axis, plus the concrete 2-node class), that neighbour look-ups are memos of a pure function (cache on/off and query order cannot matter), that accessors draw from the same sources and return exactly `count` entries. Euclidean distances / statuses (xtensor expressions) and trimesh are not decided.",
              ref="§5 C07"),
+ "C15": dict(technique="bounded exhaustive abstract interpretation (order representatives for pass elevations) of connect_basins, Kruskal, Boruvka and orient_edges on all basin graphs of <= 4 basins / small node graphs, each run twice on the same object",
+             text="Decides, within the stated bound (<= 4 basins, all weight orders incl. ties; paths and a 2x3 raster with all elevation assignments from 3 levels), that the tree spans with basins-1 edges and minimum weight for both methods, that edges are oriented away from the root with passes swapped consistently, and that connect_basins keeps the lowest pass per adjacent pair. No argument is made for larger graphs; Boruvka's large-degree path is outside the bound.",
+             ref="§12.2 (bounded claim)"),
 }
 NA = {
  "C14": "the property is a numerical identity (ADI elevation change = direct solve of two tridiagonal systems, linearity of the map) over real-valued fields: no shape-level clause of it is a necessary condition that the available static domains can decide; the only structural facts (borders left at zero, scratch reset) do not characterise the scheme and are not claimed",
- "C15": "minimality of the spanning tree, lowest-pass selection and edge orientation quantify over runtime elevations and basin-graph shapes (graph-theoretic optimum over values); the shape-level clause of the property -- scratch reuse across updates on the same basin-graph object -- is decided under C09-P2 and not claimed again here",
  "C18": "edge lengths, boundary detection from edge multiplicities and circumcentric areas are geometric values over arbitrary triangulations; static analysis has no domain relating mesh input to those outputs",
 }
 DEFAULT_NA = "check not implemented yet (framework under construction)"
